@@ -108,8 +108,11 @@ class FState(c03.HState):
         fd.env = env
         fl = FList(d0["l"])
         fl.env = env
+        fk = FDict()
+        fk.env = env
+        dict.update(fk, d0["__K"])
         dict.update(fd, {"a": d0["a"], "b": d0["b"], "c": d0["c"],
-                         "n": FObj(env, x=d0["n"].x, y=d0["n"].y, z=d0["n"].z), "l": fl})
+                         "n": FObj(env, x=d0["n"].x, y=d0["n"].y, z=d0["n"].z), "l": fl, "__K": fk})
         self.d = fd
         self.m = self.xd.Manager()
         self.r = self.m.ref(self.d, "d")
@@ -145,6 +148,15 @@ def run_case(ex, case):
         return
     ref = U.getref(st.r, L)
     v = ex.int("v_new")
+    exprmode = case.get("assign_expr")
+    if exprmode:
+        # the faulty (and repeated) assignment is expression-valued: L = <free location> + 1
+        src = [M for M in LOCS if M != L and M not in st.defs and L not in U.reads(("loc", M))]
+        src = [M for M in src if not U.is_cyclic(dict(st.defs, **{L: ("add", ("loc", M), ("const", 1))}))]
+        if not src:
+            return
+        srcloc = src[0]
+        new_def = ("add", ("loc", srcloc), ("const", 1))
     nfaults = 1 + ex.choose(case["maxfaults"])
     for f in range(nfaults):
         if f > 0:
@@ -152,6 +164,8 @@ def run_case(ex, case):
             if ex.choose(2) == 1:
                 v = ex.int(f"v_new{f}")          # a different value the second time
         plan = st.m.find_tasks(ref._get_dependencies())
+        if exprmode:
+            plan = [t for t in plan if str(t.taskid) != str(ref)]
         nwrites = 1 + len(plan)
         k = ex.choose(nwrites)
         before = {"snap": c03.snapshot(st.m, st.xd), "queries": c03.queries(st.m, st.r, None),
@@ -161,7 +175,7 @@ def run_case(ex, case):
         note(ex, "fault_injected")
         note(ex, "fault_at_first_write" if k == 0 else "fault_mid_update")
         try:
-            U.assign(st.r, L, v)
+            U.assign(st.r, L, U.build(new_def, st.r, st.fr) if exprmode else v)
             ex.fail(f"fault at write {k} of the update of {L} did not reach the caller", {"history": list(st.hist), "plan": [str(t) for t in plan]})
             return
         except InjectedFault:
@@ -177,11 +191,17 @@ def run_case(ex, case):
         st.hist.append(f"{L} = <value> with fault at write {k} of {nwrites} (plan {[str(t.taskid) for t in plan]})")
         after = {"snap": c03.snapshot(st.m, st.xd), "queries": c03.queries(st.m, st.r, None),
                  "dump": sorted(map(tuple, st.m.dump()))}
+        if exprmode:
+            # the definition itself is installed before the first write; from then on nothing may change
+            if f == 0:
+                st.defs[L] = new_def
+            before = after if f == 0 else before
+            v = U.ev(new_def, st.d, st.g)
         if after != before:
             bad = [x for x in after if after[x] != before[x]]
             ex.fail(f"a failed update changed {bad}", {"history": list(st.hist)})
             return
-        # effects: writes 0..k-1 happened, k.. did not
+        # effects: writes 0..K-1 happened, k.. did not
         det = {"history": list(st.hist)}
         if k >= 1:
             if not ex.prove(eq(U.getval(st.d, L), v), f"fault at write {k}: the assigned location {L} does not hold the new value", det):
@@ -210,13 +230,16 @@ def run_case(ex, case):
                     return
     # the fault is gone: repeat the assignment
     try:
-        U.assign(st.r, L, v)
+        U.assign(st.r, L, U.build(new_def, st.r, st.fr) if exprmode else v)
     except (Abort, Inconclusive):
         raise
     except Exception as e:
         ex.fail(f"fault-free repeat of the assignment to {L} raised {type(e).__name__}: {e}", {"history": list(st.hist)})
         return
-    st.last[L] = v
+    if exprmode:
+        st.defs[L] = new_def
+    else:
+        st.last[L] = v
     st.hist.append(f"{L} = <same value>, no fault")
     note(ex, "repeat_ok")
     if not oracle_ok(ex, st, "after the fault-free repeat"):
@@ -225,6 +248,23 @@ def run_case(ex, case):
         st.m.verify()
     except Exception as e:
         ex.fail(f"verify() fails after recovery: {e}", {"history": list(st.hist)})
+        return
+    # recoverable also means: the manager takes further definitions and removals
+    free = [M for M in LOCS if M not in st.defs and not U.is_cyclic(dict(st.defs, **{M: ("neg", ("loc", L))}))]
+    if free and L not in U.reads(("loc", free[0])):
+        M = free[0]
+        try:
+            U.assign(st.r, M, U.build(("neg", ("loc", L)), st.r, st.fr))
+            st.defs[M] = ("neg", ("loc", L))
+            st.m.unregister(U.getref(st.r, M))
+            del st.defs[M]
+            st.last[M] = U.getval(st.d, M)
+        except (Abort, Inconclusive):
+            raise
+        except Exception as e:
+            ex.fail(f"after recovery, defining/removing an expression raised {type(e).__name__}: {e}", {"history": list(st.hist)})
+            return
+        oracle_ok(ex, st, "after recovery and a further definition")
     if len(ex.samples) < 2:
         ex.samples.append({"history": list(st.hist)})
 
@@ -252,4 +292,6 @@ def cases(tier):
                 free = [L for L in LOCS if L not in dict(combo)]
                 for L in free:
                     out.append({"build": b, "defs": defs, "loc": L, "maxfaults": 2 if tier == "quick" else 3})
+                    if k == 1 or (k == 2 and len(out) % 5 == 0):
+                        out.append({"build": b, "defs": defs, "loc": L, "maxfaults": 2, "assign_expr": True})
     return out
